@@ -152,7 +152,7 @@ def _work(task: dict) -> str:
     ops = task.get("ops")
     if ops is None:
         ops = RandomHistory(task["hseed"], task["kinds"], task["steps"], task.get("tail"), task.get("big", False))
-    tr = rec.record_trace(task["tid"], task["tt"], ops, task.get("cfg"), task.get("timeout", 20.0),
+    tr = rec.record_trace(task["tid"], task["tt"], ops, task.get("cfg"), task.get("timeout", 45.0),
                           task.get("names"), task.get("text"))
     tr["meta"] = task.get("meta", "")
     return json.dumps(tr)
@@ -164,7 +164,7 @@ def _work_faults(task: dict, rec) -> str:
     call with that call failing (RuntimeError), each followed by the same call without fault and
     limits (resume).  Returns several json lines.
     """
-    base = rec.record_trace(task["tid"], task["tt"], task["ops"], task.get("cfg"), task.get("timeout", 20.0))
+    base = rec.record_trace(task["tid"], task["tt"], task["ops"], task.get("cfg"), task.get("timeout", 45.0))
     base["meta"] = "fault-free baseline"
     lines = [json.dumps(base)]
     last = task["ops"][-1]
@@ -175,7 +175,7 @@ def _work_faults(task: dict, rec) -> str:
             resume[k] = -1
     for k in range(1, min(calls, task.get("maxfaults", 12)) + 1):
         ops = [dict(o) for o in task["ops"][:-1]] + [dict(last, fail_at=k), resume]
-        tr = rec.record_trace(f"{task['tid']}_f{k}", task["tt"], ops, task.get("cfg"), task.get("timeout", 20.0))
+        tr = rec.record_trace(f"{task['tid']}_f{k}", task["tt"], ops, task.get("cfg"), task.get("timeout", 45.0))
         tr["meta"] = f"solver call {k} of the last call fails, then resume"
         lines.append(json.dumps(tr))
     return "\n".join(lines)
